@@ -156,100 +156,182 @@ def lrRel (s : St) (t : Tid) (c : Side) (old : Nat) : Option LR.St :=
 /-- complete read of side x through the LR handle -/
 def lrRd (s : St) (t : Tid) (x : Side) : Option LR.St := LR.step s.lr t (.rd x (s.lr.val x))
 
-/-- executable step: `none` = the model does not allow this event here -/
-def step (s : St) (t : Tid) (e : Ev) : Option St :=
-  match s.pc t, e with
-  -- lock_shared forms
-  | .idle, .call (.lockShared k) => (LR.step s.lr t (.call (.ls k))).map (fun l => (withLr s l).setPc t (.rdA k))
-  | .rdA k, .lr (.ldCL v) => (LR.step s.lr t (.ldCL v)).map (fun l => (withLr s l).setPc t (.rdA k))
-  | .rdA k, .lr (.inc c old) => (LR.step s.lr t (.inc c old)).map (fun l => (withLr s l).setPc t (.rdA k))
-  | .rdA k, .lr (.ldRL x) => (lrGot s t k x).map (fun l => (withLr s l).setPc t (.rdH k none))
-  | .rdH k none, .ldPtr x v =>
-      if v = s.sv x then (lrRd s t x).map (fun l => ({ s with lr := l, snaps := (t, v) :: s.snaps }).setPc t (.rdH k (some v)))
-      else none
-  | .rdH k g, .ldCtl x => (lrRd s t x).map (fun l => (withLr s l).setPc t (.rdH k g))
-  | .rdH k (some v), .lr (.dec c old) => (lrRel s t c old).map (fun l => (withLr s l).setPc t (.rdD k v))
-  | .rdD k v, .retGot (.lockShared k') v' => if k' = k ∧ v' = v then some (s.setPc t .idle) else none
+/-! The step function, one small function per program counter. -/
+
+def stepIdle (s : St) (t : Tid) : Ev → Option St
+  | .call (.lockShared k) => (LR.step s.lr t (.call (.ls k))).map (fun l => (withLr s l).setPc t (.rdA k))
   -- snapshot use and drop
-  | .idle, .prd v c => if (t, v) ∈ s.snaps ∧ c = s.cont v then some s else none
-  | .idle, .call (.drop v) =>
+  | .prd v c => if (t, v) ∈ s.snaps ∧ c = s.cont v then some s else none
+  | .call (.drop v) =>
       if (t, v) ∈ s.snaps then
         let s1 := { s with snaps := s.snaps.erase (t, v) }
         some (s1.setPc t (.dr v (s1.needOf v)))
       else none
-  | .dr v need, .pdt v' =>
+  | .call .lock => some (s.setPc t .lkCalled)
+  | .call .cancelNull => some s
+  | .ret .cancelNull => some s
+  -- end of run: both sides inspected while nobody holds a mutex
+  | .fin vl vr c =>
+      if s.wm = none ∧ s.lr.mtx = none ∧ vl = s.sv .L ∧ vr = s.sv .R ∧ c = s.cont vl then some s else none
+  | _ => none
+
+/-- lock_shared forms: LR read acquisition -/
+def stepRdA (s : St) (t : Tid) (k : Nat) : Ev → Option St
+  | .lr (.ldCL v) => (LR.step s.lr t (.ldCL v)).map (fun l => (withLr s l).setPc t (.rdA k))
+  | .lr (.inc c old) => (LR.step s.lr t (.inc c old)).map (fun l => (withLr s l).setPc t (.rdA k))
+  | .lr (.ldRL x) => (lrGot s t k x).map (fun l => (withLr s l).setPc t (.rdH k none))
+  | _ => none
+
+/-- lock_shared forms: copy of the shared_ptr under the LR read handle, then LR release -/
+def stepRdH (s : St) (t : Tid) (k : Nat) (g : Option Ver) : Ev → Option St
+  | .ldPtr x v =>
+      if g = none ∧ v = s.sv x then
+        (lrRd s t x).map (fun l => ({ s with lr := l, snaps := (t, v) :: s.snaps }).setPc t (.rdH k (some v)))
+      else none
+  | .ldCtl x => (lrRd s t x).map (fun l => (withLr s l).setPc t (.rdH k g))
+  | .lr (.dec c old) =>
+      match g with
+      | some v => (lrRel s t c old).map (fun l => (withLr s l).setPc t (.rdD k v))
+      | none => none
+  | _ => none
+
+def stepRdD (s : St) (t : Tid) (k : Nat) (v : Ver) : Ev → Option St
+  | .retGot (.lockShared k') v' => if k' = k ∧ v' = v then some (s.setPc t .idle) else none
+  | _ => none
+
+def stepDr (s : St) (t : Tid) (v : Ver) (need : Need) : Ev → Option St
+  | .pdt v' =>
       if v' = v ∧ need ≠ .no ∧ v ∉ s.dead ∧ s.refd v = false then some ({ s with dead := v :: s.dead }.setPc t (.dr v .no))
       else none
-  | .dr v need, .ret (.drop v') => if v' = v ∧ need ≠ .must then some (s.setPc t .idle) else none
-  -- lock()
-  | .idle, .call .lock => some (s.setPc t .lkCalled)
-  | .lkCalled, .olock =>
+  | .ret (.drop v') => if v' = v ∧ need ≠ .must then some (s.setPc t .idle) else none
+  | _ => none
+
+def stepLkCalled (s : St) (t : Tid) : Ev → Option St
+  | .olock =>
       if s.wm = none then (LR.step s.lr t (.call (.ls 0))).map (fun l => ({ s with lr := l, wm := some t }).setPc t .lkA)
       else none
-  | .lkA, .lr (.ldCL v) => (LR.step s.lr t (.ldCL v)).map (fun l => (withLr s l).setPc t .lkA)
-  | .lkA, .lr (.inc c old) => (LR.step s.lr t (.inc c old)).map (fun l => (withLr s l).setPc t .lkA)
-  | .lkA, .lr (.ldRL x) => (lrGot s t 0 x).map (fun l => (withLr s l).setPc t (.lkH none))
-  | .lkH none, .ldPtr x v =>
-      if v = s.sv x then (lrRd s t x).map (fun l => (withLr s l).setPc t (.lkH (some v))) else none
-  | .lkH (some src), .pcp new src' c =>
-      if src' = src ∧ new ∉ s.alloc ∧ c = s.cont src then
-        some ({ s with alloc := new :: s.alloc, parent := fun w => if w = new then src else s.parent w,
+  | _ => none
+
+def stepLkA (s : St) (t : Tid) : Ev → Option St
+  | .lr (.ldCL v) => (LR.step s.lr t (.ldCL v)).map (fun l => (withLr s l).setPc t .lkA)
+  | .lr (.inc c old) => (LR.step s.lr t (.inc c old)).map (fun l => (withLr s l).setPc t .lkA)
+  | .lr (.ldRL x) => (lrGot s t 0 x).map (fun l => (withLr s l).setPc t (.lkH none))
+  | _ => none
+
+def stepLkH (s : St) (t : Tid) (g : Option Ver) : Ev → Option St
+  | .ldPtr x v =>
+      if g = none ∧ v = s.sv x then (lrRd s t x).map (fun l => (withLr s l).setPc t (.lkH (some v))) else none
+  | .pcp new src' c =>
+      if g = some src' ∧ new ∉ s.alloc ∧ c = s.cont src' then
+        some ({ s with alloc := new :: s.alloc, parent := fun w => if w = new then src' else s.parent w,
                        cont := fun w => if w = new then c else s.cont w }.setPc t (.lkC new))
       else none
-  | .lkH (some _), .uth => some (s.setPc t .lkT)
-  | .lkC v, .lr (.dec c old) => (lrRel s t c old).map (fun l => (withLr s l).setPc t (.lkD v))
-  | .lkD v, .retGot .lock v' => if v' = v then some (s.setPc t (.wHold v)) else none
-  | .lkT, .lr (.dec c old) => (lrRel s t c old).map (fun l => (withLr s l).setPc t .lkTD)
-  | .lkTD, .ounlock => if s.wm = some t then some ({ s with wm := none }.setPc t .lkExc) else none
-  | .lkExc, .exc .lock => some (s.setPc t .idle)
-  -- the write handle
-  | .wHold v, .pwr v' c =>
-      if v' = v then some { s with cont := fun w => if w = v then c else s.cont w } else none
-  | .wHold v, .prd v' c => if (v' = v ∨ (t, v') ∈ s.snaps) ∧ c = s.cont v' then some s else none
-  | .wHold _, .call .move => some s
-  | .wHold _, .ret .move => some s
-  -- release
-  | .wHold v, .call .release => (LR.step s.lr t (.call (.modify v))).map (fun l => (withLr s l).setPc t (.relA v))
-  | .relA v, .lr .lock => (LR.step s.lr t .lock).map (fun l => (withLr s l).setPc t (.relA v))
-  | .relA v, .stPtr x v' =>
+  | .uth => if g ≠ none then some (s.setPc t .lkT) else none
+  | _ => none
+
+def stepLkC (s : St) (t : Tid) (v : Ver) : Ev → Option St
+  | .lr (.dec c old) => (lrRel s t c old).map (fun l => (withLr s l).setPc t (.lkD v))
+  | _ => none
+
+def stepLkD (s : St) (t : Tid) (v : Ver) : Ev → Option St
+  | .retGot .lock v' => if v' = v then some (s.setPc t (.wHold v)) else none
+  | _ => none
+
+def stepLkT (s : St) (t : Tid) : Ev → Option St
+  | .lr (.dec c old) => (lrRel s t c old).map (fun l => (withLr s l).setPc t .lkTD)
+  | _ => none
+
+def stepLkTD (s : St) (t : Tid) : Ev → Option St
+  | .ounlock => if s.wm = some t then some ({ s with wm := none }.setPc t .lkExc) else none
+  | _ => none
+
+def stepLkExc (s : St) (t : Tid) : Ev → Option St
+  | .exc .lock => some (s.setPc t .idle)
+  | _ => none
+
+/-- the client owns the write handle -/
+def stepWHold (s : St) (t : Tid) (v : Ver) : Ev → Option St
+  | .pwr v' c => if v' = v then some { s with cont := fun w => if w = v then c else s.cont w } else none
+  | .prd v' c => if (v' = v ∨ (t, v') ∈ s.snaps) ∧ c = s.cont v' then some s else none
+  | .call .move => some s
+  | .ret .move => some s
+  | .call .release => (LR.step s.lr t (.call (.modify v))).map (fun l => (withLr s l).setPc t (.relA v))
+  | .call .cancel => some (s.setPc t (.cn v false false))
+  | _ => none
+
+/-- release, until the first application (on the side the flag points away from) is complete -/
+def stepRelA (s : St) (t : Tid) (v : Ver) : Ev → Option St
+  | .lr .lock => (LR.step s.lr t .lock).map (fun l => (withLr s l).setPc t (.relA v))
+  | .stPtr x v' =>
       if v' = v then (LR.step s.lr t (.fBegin x)).map (fun l => ({ s with lr := l, det := some x }).setPc t (.relA v))
       else none
-  | .relA v, .stCtl x =>
+  | .stCtl x =>
       if s.det = some x ∧ (s.sv x ∈ s.dead ∨ s.refd (s.sv x) = true) then
         (LR.step s.lr t (.fEnd x (s.lr.val x ++ [v]))).map (fun l => ({ s with lr := l, det := none }).setPc t (.relB v false))
       else none
-  | .relA _, .ldCtl x => if s.det = some x then some s else none     -- the assignment re-reads the old control word
-  | .relA v, .lr e => if neutral e then (LR.step s.lr t e).map (fun l => (withLr s l).setPc t (.relA v)) else none
-  | .relB v false, .lr (.stRL y) => (LR.step s.lr t (.stRL y)).map (fun l => (withLr s l).setPc t (.relB v true))
-  | .relB v f, .stPtr x v' =>
+  | .ldCtl x => if s.det = some x then some s else none     -- the assignment re-reads the old control word
+  | .lr e => if neutral e then (LR.step s.lr t e).map (fun l => (withLr s l).setPc t (.relA v)) else none
+  | _ => none
+
+/-- release, after the first application: flip, wait loops, second application, inner unlock -/
+def stepRelB (s : St) (t : Tid) (v : Ver) (f : Bool) : Ev → Option St
+  | .lr (.stRL y) =>
+      if f = false then (LR.step s.lr t (.stRL y)).map (fun l => (withLr s l).setPc t (.relB v true)) else none
+  | .stPtr x v' =>
       if v' = v then (LR.step s.lr t (.fBegin x)).map (fun l => ({ s with lr := l, det := some x }).setPc t (.relB v f))
       else none
-  | .relB _ _, .pdt o =>      -- inside the window: the old version of the side being assigned, if nothing else refers to it
+  | .pdt o =>      -- inside the window: the old version of the side being assigned, if nothing else refers to it
       if s.winRef o = true ∧ o ∉ s.dead ∧ s.refd o = false then some { s with dead := o :: s.dead } else none
-  | .relB v f, .stCtl x =>
+  | .stCtl x =>
       if s.det = some x ∧ (s.sv x ∈ s.dead ∨ s.refd (s.sv x) = true) then
         (LR.step s.lr t (.fEnd x (s.lr.val x ++ [v]))).map (fun l => ({ s with lr := l, det := none }).setPc t (.relB v f))
       else none
-  | .relB _ _, .ldCtl x => if s.det = some x then some s else none
-  | .relB v _, .lr .unlock => (LR.step s.lr t .unlock).map (fun l => (withLr s l).setPc t (.relC v))
-  | .relB v f, .lr e => if neutral e then (LR.step s.lr t e).map (fun l => (withLr s l).setPc t (.relB v f)) else none
-  | .relC v, .ounlock =>
+  | .ldCtl x => if s.det = some x then some s else none
+  | .lr .unlock => if f = true then (LR.step s.lr t .unlock).map (fun l => (withLr s l).setPc t (.relC v)) else none
+  | .lr e => if neutral e then (LR.step s.lr t e).map (fun l => (withLr s l).setPc t (.relB v f)) else none
+  | _ => none
+
+def stepRelC (s : St) (t : Tid) (v : Ver) : Ev → Option St
+  | .ounlock =>
       if s.wm = some t then
         (LR.step s.lr t (.ret (.modify v))).map (fun l =>
           ({ s with lr := l, wm := none, released := s.released ++ [v] }).setPc t (.relU v))
       else none
-  | .relU _, .ret .release => some (s.setPc t .idle)
-  -- cancel
-  | .wHold v, .call .cancel => some (s.setPc t (.cn v false false))
-  | .cn v false d, .ounlock => if s.wm = some t then some ({ s with wm := none }.setPc t (.cn v true d)) else none
-  | .cn v u false, .pdt v' => if v' = v then some ({ s with dead := v :: s.dead }.setPc t (.cn v u true)) else none
-  | .cn _ true true, .ret .cancel => some (s.setPc t .idle)
-  | .idle, .call .cancelNull => some s
-  | .idle, .ret .cancelNull => some s
-  -- end of run: both sides inspected while nobody holds a mutex
-  | .idle, .fin vl vr c =>
-      if s.wm = none ∧ s.lr.mtx = none ∧ vl = s.sv .L ∧ vr = s.sv .R ∧ c = s.cont vl then some s else none
-  | _, _ => none
+  | _ => none
+
+def stepRelU (s : St) (t : Tid) : Ev → Option St
+  | .ret .release => some (s.setPc t .idle)
+  | _ => none
+
+/-- cancel(): unlock and destruction of the private copy, in either order -/
+def stepCn (s : St) (t : Tid) (v : Ver) (u d : Bool) : Ev → Option St
+  | .ounlock => if u = false ∧ s.wm = some t then some ({ s with wm := none }.setPc t (.cn v true d)) else none
+  | .pdt v' => if d = false ∧ v' = v then some ({ s with dead := v :: s.dead }.setPc t (.cn v u true)) else none
+  | .ret .cancel => if u = true ∧ d = true then some (s.setPc t .idle) else none
+  | _ => none
+
+/-- executable step: `none` = the model does not allow this event here -/
+def step (s : St) (t : Tid) (e : Ev) : Option St :=
+  match s.pc t with
+  | .idle => stepIdle s t e
+  | .rdA k => stepRdA s t k e
+  | .rdH k g => stepRdH s t k g e
+  | .rdD k v => stepRdD s t k v e
+  | .dr v need => stepDr s t v need e
+  | .lkCalled => stepLkCalled s t e
+  | .lkA => stepLkA s t e
+  | .lkH g => stepLkH s t g e
+  | .lkC v => stepLkC s t v e
+  | .lkD v => stepLkD s t v e
+  | .lkT => stepLkT s t e
+  | .lkTD => stepLkTD s t e
+  | .lkExc => stepLkExc s t e
+  | .wHold v => stepWHold s t v e
+  | .relA v => stepRelA s t v e
+  | .relB v f => stepRelB s t v f e
+  | .relC v => stepRelC s t v e
+  | .relU _ => stepRelU s t e
+  | .cn v u d => stepCn s t v u d e
 
 def run (s : St) (es : List (Tid × Ev)) : Option St := runFrom step s es
 
